@@ -12,4 +12,10 @@ META = {
   "note": "Trusts the 90-line reference codec and the Go standard library's base64/utf16; non-canonical base64 tail bits are not judged.",
   "technique": "property-based testing (rapid) + exhaustive enumeration, differential against reference codec, chunking metamorphic relation",
  },
+ "C20": {
+  "text": "Bounded-exhaustive enumeration of names x patterns x delimiters x references over an 8-symbol alphabet (ordinary, both delimiters, both wildcards, two non-ASCII characters) plus random search to length 12, compared with two independent reference matchers. Complete inside the stated bound, sampling beyond it.",
+  "design_ref": "DESIGN.md 3/C20",
+  "note": "Reference resolution rule (leading delimiter = absolute, reference + delimiter is a literal prefix) is taken from the repository's own TestMatchList table; valid UTF-8 only.",
+  "technique": "exhaustive small-scope enumeration + property-based testing (rapid), differential against regexp/DP reference matcher",
+ },
 }
